@@ -19,6 +19,48 @@ type Case struct {
 	Offsets    []int      `json:"offsets,omitempty"`
 	AllOffsets bool       `json:"all_offsets,omitempty"`
 	CaseMask   uint64     `json:"case_mask"`
+	// Prior names a sibling of the sequence (same length, same ends, changed in the middle) that is
+	// hashed first, under every flag pair, with its result discarded: the invariances must hold whatever
+	// was hashed before. "" | point | swap | block
+	Prior    string `json:"prior,omitempty"`
+	PriorPos int    `json:"prior_pos,omitempty"`
+}
+
+// sibling derives the prior input from the (upper-case) sequence.
+func sibling(s, kind string, pos int) string {
+	n := len(s)
+	if n < 3 || kind == "" {
+		return ""
+	}
+	b := []byte(s)
+	p := ((pos % n) + n) % n
+	next := func(c byte) byte {
+		const order = "ACGT"
+		if i := strings.IndexByte(order, c); i >= 0 {
+			return order[(i+1)%4]
+		}
+		return 'A'
+	}
+	switch kind {
+	case "point":
+		b[p] = next(b[p])
+	case "swap":
+		q := (p + 1) % n
+		if b[p] == b[q] {
+			b[p] = next(b[p])
+		} else {
+			b[p], b[q] = b[q], b[p]
+		}
+	case "block": // the middle third reversed
+		lo, hi := n/3, 2*n/3
+		for i, j := lo, hi-1; i < j; i, j = i+1, j-1 {
+			b[i], b[j] = b[j], b[i]
+		}
+		if string(b) == s {
+			b[n/2] = next(b[n/2])
+		}
+	}
+	return string(b)
 }
 
 func toU(s string) string { return strings.ReplaceAll(strings.ReplaceAll(s, "T", "U"), "t", "u") }
@@ -68,6 +110,15 @@ func check(c Case) error {
 	n := len(dna)
 	rcDNA := ref.RevComp(dna)
 	rcRNA := toU(rcDNA)
+	if sib := sibling(dna, c.Prior, c.PriorPos); sib != "" {
+		for _, circ := range []bool{false, true} {
+			for _, ds := range []bool{false, true} {
+				if _, err := hash(sib, "DNA", circ, ds); err != nil {
+					return err
+				}
+			}
+		}
+	}
 	for _, circ := range []bool{false, true} {
 		for _, ds := range []bool{false, true} {
 			for _, v := range []struct{ typ, s, rc string }{{"DNA", dna, rcDNA}, {"RNA", rna, rcRNA}} {
@@ -200,8 +251,24 @@ func gen(t *rapid.T) Case {
 		if len(u) <= 48 {
 			c.Seq = vk.SeqSpec{Lit: u + ref.RevComp(u)}
 		}
+	case 2: // low complexity: one letter repeated, with one to three other letters put in
+		n := vk.DrawSize(t, "run_len", 3, 3000)
+		b := []byte(strings.Repeat(string(alpha[rapid.IntRange(0, len(alpha)-1).Draw(t, "run_letter")]), n))
+		for i, k := 0, rapid.IntRange(1, 3).Draw(t, "odd_letters"); i < k; i++ {
+			b[rapid.IntRange(0, n-1).Draw(t, "odd_at")] = alpha[rapid.IntRange(0, len(alpha)-1).Draw(t, "odd_letter")]
+		}
+		c.Seq = vk.SeqSpec{Lit: string(b)}
 	}
 	n := len(c.Seq.String())
+	if rapid.IntRange(0, 2).Draw(t, "with_prior") == 0 && n >= 3 {
+		c.Prior = rapid.SampledFrom([]string{"point", "point", "swap", "block"}).Draw(t, "prior")
+		// mostly in the middle half, so that both ends stay as they are
+		if rapid.IntRange(0, 3).Draw(t, "prior_anywhere") == 0 {
+			c.PriorPos = rapid.IntRange(0, n-1).Draw(t, "prior_pos")
+		} else {
+			c.PriorPos = rapid.IntRange(n/4, 3*n/4).Draw(t, "prior_pos_mid")
+		}
+	}
 	if n <= 200 {
 		c.AllOffsets = true
 	} else {
